@@ -115,7 +115,7 @@ theorem all_and_empty_range (p : Nat) (hp : p < 65536) :
   · rw [apply_spec]; by_cases h : p = 0
     · subst h; simp
     · have : ¬ (0 ≤ p ∧ p ≤ 0) := by omega
-      simp [h, this, endhostPort]
+      simp [h, endhostPort]
 
 /-! ### 3. service addresses -/
 
@@ -153,20 +153,6 @@ theorem svc_table (c : Cfg) (svc : Nat) (ip : Bytes) (port : Nat) (hv : validSvc
 
 /-! ### 4. the configured range is honoured whatever the configuration order -/
 
-/-- the range a `SetPortRange(s, e)` call asks for, after the router-configuration override -/
-def wanted (ovStart ovStop : Option Nat) (s e : Nat) : Range :=
-  ⟨override ovStart s, override ovStop e, endhostPort⟩
-
-/-- the last `SetPortRange` of a call list, if any -/
-def lastSet : List Call → Option (Nat × Nat)
-  | [] => none
-  | c :: cs =>
-    match lastSet cs with
-    | some x => some x
-    | none => match c with
-      | .setPortRange s e => some (s, e)
-      | _ => none
-
 /-- **effective_range.** After *any* sequence of configuration calls (any interleaving, repeated
 `SetPortRange`, repeated `AddInternalInterface`, …) that creates the internal link and sets the
 range at least once, the range the internal link applies is the one asked for by the *last*
@@ -174,13 +160,7 @@ range at least once, the range the internal link applies is the one asked for by
 theorem effective_range (ovStart ovStop : Option Nat) (cs : List Call) (s e : Nat)
     (hI : Call.addInternal ∈ cs) (hP : lastSet cs = some (s, e)) :
     (run (Cfg.init ovStart ovStop) cs).link = some (wanted ovStart ovStop s e) :=
-  Proofs.effective_range ovStart ovStop cs s e hI (by
-    -- `lastSet` here and in `Proofs` are the same function
-    have : ∀ l, lastSet l = Proofs.lastSet l := by
-      intro l; induction l with
-      | nil => rfl
-      | cons c cs ih => simp [lastSet, Proofs.lastSet, ih]
-    rw [← this]; exact hP)
+  Proofs.effective_range ovStart ovStop cs s e hI hP
 
 /-- **config_order_irrelevant.** Take the calls `ConfigDataplane` issues (one `SetPortRange(s, e)`,
 `AddInternalInterface`, any number of other calls): for *every permutation* of them the internal
@@ -188,8 +168,7 @@ link ends up with the configured range. -/
 theorem config_order_irrelevant (ovStart ovStop : Option Nat) (cs cs' : List Call) (s e : Nat)
     (hperm : cs.Perm cs')
     (hI : Call.addInternal ∈ cs)
-    (hP : cs.filter (fun c => match c with | .setPortRange _ _ => true | _ => false)
-            = [.setPortRange s e]) :
+    (hP : cs.filter Call.isSetPortRange = [.setPortRange s e]) :
     (run (Cfg.init ovStart ovStop) cs').link = some (wanted ovStart ovStop s e) :=
   Proofs.config_order_irrelevant ovStart ovStop cs cs' s e hperm hI hP
 
@@ -197,8 +176,7 @@ theorem config_order_irrelevant (ovStart ovStop : Option Nat) (cs cs' : List Cal
 packet for an IP host identically -/
 theorem resolve_order_irrelevant (ovStart ovStop : Option Nat) (cs cs' : List Call) (s e : Nat)
     (hperm : cs.Perm cs') (hI : Call.addInternal ∈ cs)
-    (hP : cs.filter (fun c => match c with | .setPortRange _ _ => true | _ => false)
-            = [.setPortRange s e])
+    (hP : cs.filter Call.isSetPortRange = [.setPortRange s e])
     (bs : Bytes) (proto : Nat) (pld : Bytes) (q : Quote) :
     resolveLocalDst (run (Cfg.init ovStart ovStop) cs') (.ip bs) proto pld q =
     resolveLocalDst (run (Cfg.init ovStart ovStop) cs) (.ip bs) proto pld q := by
@@ -211,8 +189,7 @@ override), a UDP packet for a routable IP host goes to its destination port if `
 and to 30041 otherwise -/
 theorem udp_delivery_any_order (cs cs' : List Call) (s e : Nat) (hperm : cs.Perm cs')
     (hI : Call.addInternal ∈ cs)
-    (hP : cs.filter (fun c => match c with | .setPortRange _ _ => true | _ => false)
-            = [.setPortRange s e])
+    (hP : cs.filter Call.isSetPortRange = [.setPortRange s e])
     (bs : Bytes) (h4 : is4In6 bs = false) (hz : allZero bs = false)
     (src dst : Nat) (rest : Bytes) (q : Quote) (hd : dst < 65536) (hl : 4 ≤ rest.length) :
     resolveLocalDst (run (Cfg.init none none) cs') (.ip bs) l4UDP
@@ -226,9 +203,9 @@ theorem udp_delivery_any_order (cs cs' : List Call) (s e : Nat) (hperm : cs.Perm
 
 /-- `"-"` (and nothing) is the empty range `(0, 0)`, `"all"` is `(1, 65535)` -/
 theorem range_text_special :
-    validatePortRange [] = some (0, 0) ∧ validatePortRange "-".toList = some (0, 0) ∧
-    validatePortRange "all".toList = some (1, 65535) ∧
-    validatePortRange "ALL".toList = some (1, 65535) := by
+    validatePortRange [] = some (0, 0) ∧ validatePortRange ['-'] = some (0, 0) ∧
+    validatePortRange ['a', 'l', 'l'] = some (1, 65535) ∧
+    validatePortRange ['A', 'L', 'L'] = some (1, 65535) := by
   decide
 
 /-- `"<a>-<b>"` with decimal digit strings: accepted iff `1 ≤ a ≤ b ≤ 65535`, and then it means
@@ -287,20 +264,31 @@ theorem gen_propagation :
 
 /-! ### non-vacuity -/
 
-/-- the order the real start-up uses (range last) and the order the unit tests use (range first),
-with the recommended transition range and ports 80 / 31500 / 40000 -/
+/-- the hypotheses are satisfiable: the order the real start-up uses (range last) is a permutation
+of the order the unit tests use (range first); with the recommended transition range, port 80
+goes to 30041 and port 31500 is delivered directly -/
 example :
-    let cs := [Call.setKey, .addInternal, .addExternal, .addSibling, .setPortRange 31000 32767]
-    let c := run (Cfg.init none none) cs
-    let udp (p : Nat) : Bytes := be16 4242 ++ be16 p ++ [0, 8, 0, 0]
-    resolveLocalDst c (.ip [10, 0, 0, 7]) l4UDP (udp 80) .other = .ok [([10, 0, 0, 7], 30041)] ∧
-    resolveLocalDst c (.ip [10, 0, 0, 7]) l4UDP (udp 31500) .other = .ok [([10, 0, 0, 7], 31500)] ∧
-    resolveLocalDst c (.ip [10, 0, 0, 7]) l4UDP (udp 40000) .other = .ok [([10, 0, 0, 7], 30041)] := by
-  decide
+    resolveLocalDst
+      (run (Cfg.init none none)
+        [Call.setKey, .addInternal, .addExternal, .addSibling, .setPortRange 31000 32767])
+      (.ip [10, 0, 0, 7]) l4UDP (be16 4242 ++ be16 80 ++ [0, 8, 0, 0]) .other
+      = .ok [([10, 0, 0, 7], 30041)] ∧
+    resolveLocalDst
+      (run (Cfg.init none none)
+        [Call.setKey, .addInternal, .addExternal, .addSibling, .setPortRange 31000 32767])
+      (.ip [10, 0, 0, 7]) l4UDP (be16 4242 ++ be16 31500 ++ [0, 8, 0, 0]) .other
+      = .ok [([10, 0, 0, 7], 31500)] := by
+  have hperm : [Call.setPortRange 31000 32767, .addInternal, .setKey, .addExternal, .addSibling].Perm
+      [Call.setKey, .addInternal, .addExternal, .addSibling, .setPortRange 31000 32767] := by
+    decide
+  have h := fun dst hd => udp_delivery_any_order _ _ 31000 32767 hperm (by decide) (by decide)
+    [10, 0, 0, 7] (by decide) (by decide) 4242 dst [0, 8, 0, 0] .other hd (by decide)
+  exact ⟨by simpa using h 80 (by decide), by simpa using h 31500 (by decide)⟩
 
 example : (run (Cfg.init none none) [.setPortRange 31000 32767, .addInternal]).link =
     (run (Cfg.init none none) [.addInternal, .setPortRange 31000 32767]).link := by decide
 
-example : validatePortRange "31000-32767".toList = some (31000, 32767) := by decide
+example : validatePortRange ['3', '1', '0', '0', '0', '-', '3', '2', '7', '6', '7'] =
+    some (31000, 32767) := by decide
 
 end Scion.C11
